@@ -182,7 +182,8 @@ def getNumericCompressed (r : R) (col : List Node) (g : Range) : Option (R × Li
     let (nbinc0, e2, r2) := r1.getbits 6
     if (nbinc0 : Int) > nb then none        -- errcode = -2
     else
-      let nbinc := if nbinc0 = 63 then 0 else nbinc0
+      -- 63 is a real increment width for elements of 63 bits or more
+      let nbinc := if nbinc0 = 63 ∧ (nbinc0 : Int) > nb then 0 else nbinc0
       if e2 < 0 then none
       else if nbinc = 0 then some (r2, col.map (fun n => setBitsValue n imin))
       else
